@@ -5,7 +5,7 @@
 # the quick tier of each listed check with GOCOVERDIR set, merges the counters
 # and prints every library block no world reached, with its source line.
 # Unreached blocks are where a change can hide from every oracle; the list is
-# what workload extensions are driven from (DESIGN.md section 7.4).
+# what workload extensions are driven from (DESIGN.md section 7.3).
 set -u
 VERIF="$(cd "$(dirname "${BASH_SOURCE[0]}")/.." && pwd)"
 REPO="${VERIF_REPO:-/repo}"
@@ -34,7 +34,7 @@ def load(p):
         if ln.startswith('mode:'): continue
         m=re.match(r'(.*):(\d+)\.(\d+),(\d+)\.(\d+) (\d+) (\d+)',ln)
         f,l0,c0,l1,c1,n,cnt=m.groups()
-        if '/zzverif/' in f or '/simrt/' in f or 'zz_verif' in f: continue
+        if '/zzverif/' in f or '/simrt/' in f or 'zz_verif' in f or f.endswith('test_common.go'): continue
         k=(f,int(l0),int(c0),int(l1),int(c1))
         d[k]=max(d.get(k,0),int(cnt))
     return d
